@@ -17,6 +17,16 @@ pub fn mk(s: f64) -> CgrComputer {
     }
 }
 
+/// The computer built by the REAL public constructor (rayon::current_num_threads stubbed -> 1 under Kani).
+pub fn mk_new(size: usize) -> CgrComputer {
+    CgrComputer::new(String::new(), String::new(), size)
+}
+
+#[cfg(kani)]
+pub fn one_thread() -> usize {
+    1
+}
+
 /// public window onto the private vectorise_one (used by the C13 differential)
 pub fn vec_one(cc: &CgrComputer, seq: &[u8]) -> Result<Vec<(f64, f64)>, String> {
     cc.vectorise_one(seq)
@@ -33,20 +43,21 @@ pub fn corner(b: u8, s: f64) -> Option<(f64, f64)> {
     }
 }
 
-pub fn any_size() -> f64 {
+pub fn any_size() -> usize {
     let sz = any_u32();
     assume(sz >= 1 && sz <= (1u32 << 20));
-    sz as f64
+    sz as usize
 }
 
 /// N = length (concrete per instance: the real code allocates
 /// Vec::with_capacity(seq.len()), and a symbolic allocation size is very costly
 /// for CBMC); ALL 256 byte values are allowed (rejection clause).
 pub fn c11_body<const N: usize>() {
-    let s = any_size();
+    let size = any_size();
+    let s = size as f64;
     let seq: [u8; N] = any_bytes::<N>();
     let len = N;
-    let cc = mk(s);
+    let cc = mk_new(size);
     let res = cc.vectorise_one(&seq[..len]);
     let mut all_nuc = true;
     let mut i = 0;
@@ -103,9 +114,9 @@ pub fn c11_body<const N: usize>() {
 /// Prefix determinism: point i depends only on the first i bases — the
 /// points of seq[..len-1] are the first len-1 points of seq[..len].
 pub fn c11_prefix<const N: usize>() {
-    let s = any_size();
+    let size = any_size();
     let seq: [u8; N] = any_bytes::<N>();
-    let cc = mk(s);
+    let cc = mk_new(size);
     let full = cc.vectorise_one(&seq[..N]);
     let pre = cc.vectorise_one(&seq[..N - 1]);
     if let Ok(v) = full {
